@@ -1,8 +1,9 @@
 """C01 — L-BFGS/BFGS solve well-conditioned smooth convex problems, truthfully (DESIGN.md §4 C01)."""
-import math, os
+import math, os, sys
 import vlib
 from vlib import Toks, f2h, h2f, lst
 from props.c01_translate import translate  # noqa: F401  (regenerates lean/NanoVerif/Gen/DoneLogic.lean)
+from props import c01_ls0
 
 ID = "C01"
 LEVEL = "proof"
@@ -14,6 +15,23 @@ OBLIGATIONS = [NS + t for t in [
     "converged_truthful_quasi", "converged_components", "twoloop_descent", "direction_is_descent_lbfgs",
     "direction_is_descent_quasi", "direction_is_descent_cgd", "direction_is_descent_gd", "bfgs_update_secant",
     "strongly_convex_gradient_bound", "strongly_convex_accuracy",
+]] + ["NanoVerif.SolverStep." + t for t in [
+    # lsearch_t::get = lsearch0 o lsearchk modelled (Model/SolverStep.lean): only f is an oracle
+    "converged_truthful_composed", "converged_truthful_composed_lt", "converged_truthful_composed_lbfgs",
+    "converged_truthful_composed_quasi", "converged_truthful_composed_gd_cgd",
+    "lsearch_success_is_evaluation_at_positive_step", "initial_step_formula", "strategy_members_after_call",
+    "initial_step_positive_in_run", "initial_step_positive_throughout_run", "object_after_success",
+    "quadratic_negative_step_after_refusal", "linear_negative_step_on_ascent", "cgdescent_zero_steps",
+    # Proofs/SolverStep.lean: the four strategies
+    "constant_t0", "constant_pos", "linear_first", "linear_formula", "linear_pos", "linear_neg_of_ascent",
+    "quadratic_first", "quadratic_formula", "quadratic_pos", "quadratic_neg_of_prev_ascent", "quadratic_is_parabola_minimiser",
+    "cg_first_formula", "cg_first_pos", "cg_first_zero_gradient", "cg_next_formula", "cg_next_is_parabola_minimiser",
+    "cg_next_pos", "cg_zero_last", "history_members", "history_step", "l0run_stateless", "quadratic_history_step",
+    "linear_history_step",
+    # Proofs/SolverStepLoop.lean, Proofs/SolverStepCompose.lean: the glue and the composition
+    "lkOfModel_contract", "lsearchGetM_contract", "lsearchGetM_state_cases", "lsLoopS_eq_lsLoop", "lsRunS_eq_lsRun",
+    "lsMinimizeS_eq_lsMinimize", "lkOfModel_success", "lkOfModel_nondescent", "lsearchGetM_success", "lsearchGetM_nondescent",
+    "t0_pos_in_run", "objInv_init", "lsearchGetM_ok_descent", "objInv_after_success", "objects_of_run_inv",
 ]]
 TRUSTED = [
     "Lean 4.33.0 kernel + the Mathlib modules imported by Proofs/Solver*.lean and Props/C01.lean (Algebra.Order.Field.Basic, "
@@ -26,8 +44,23 @@ TRUSTED = [
     "the line search is an oracle of the model: contract 'the state it leaves is an evaluation of f' (proved for the five line "
     "searches in C07; monitored here at run time against the wrapper's evaluation log)",
     "tools/props/c01.py generator + oracle (own evaluation of the quadratics), harness/c01.cpp + harness/c01_common.h, g++/Eigen",
+    "hand-written model NanoVerif/Model/SolverStep.lean (the four lsearch0 strategies with their private members, the glue "
+    "lsearch_t::get, make_lsearch; composed with the C07 model of lsearchk_t::get), tied to the code by the family `ls0`: replay of "
+    "every logged lsearch_t::get of real solver runs (17 solvers x 4 strategies x 5 searches x parameters over the domains), of a "
+    "stand-alone lsearch_t on arbitrary (point, direction) sequences, and of a stand-alone lsearch0 object on scripted histories; "
+    "tools/props/c01_ls0.py (generator, independent formulas of the four strategies, comparator)",
+    "C07's theorems about lsearchk_t::get (Props/C07.lean is imported by Proofs/SolverStepCompose.lean): success_state_is_last_answer, "
+    "success_step_positive, morethuente_/cgdescent_success_step_positive, nondescent_refused",
 ]
 ASSUMPTIONS = [
+    "converged_truthful_composed*: the line search is the model lsearch0 o lsearchk; its only oracle is the objective f (value and "
+    "gradient as mathematical functions of the point; the call counters are those of function_t::vgrad)",
+    "family ls0: the four Eigen reductions a strategy reads (g.d, |x|inf, |g|inf, |g|^2) are recomputed by the harness with Eigen on "
+    "copies of the logged vectors and handed to the model's formulas (compared at 1e-12, bit-identical in practice); the model's own "
+    "sequential reductions are compared within the rounding bound 8 n u sum|g_i d_i|; vectors containing NaN are not compared for "
+    "CG_DESCENT's first step (Eigen leaves max-reductions over NaN unspecified)",
+    "private members of the strategy objects cannot be read from outside: they are checked through the next initial step and, on the "
+    "model side, against the logged (f, g.d) of the call that set them",
     "theorems are about exact arithmetic (ordered fields) or about the control skeleton for an arbitrary scalar type; rounding is outside",
     "'converged within 1500 evaluations' is a floating-point convergence-rate claim: tested on the statement's problem class, not proved",
     "benchmark functions are re-evaluated by a fresh instance of the same libnano class (their formulas are C06's subject); the random "
@@ -41,7 +74,11 @@ RULE = ("statement experiment: random strongly convex quadratics (kappa log-unif
         "n 1..16, scale 1e-3..1e3, minimiser in [-5,5]^n, x0 in [-10,10]^n incl. box faces) with lbfgs (history 1..20 + default) and bfgs at "
         "eps = 1e-8; truthfulness: 17 line-search solvers x 4 lsearch0 x 5 lsearchk x random (c1,c2) x eps on a log grid x max_evals on the "
         "smooth benchmark functions at 1..32 dims and on random quadratics; a case is non-trivial when >= 2 iterations were taken "
-        "(the forced-descent / pair-skipping branch status of every logged iteration is printed by the model); distinct by op text")
+        "(the forced-descent / pair-skipping branch status of every logged iteration is printed by the model); distinct by op text; "
+        "family ls0 (step initialisation + glue): one real run per (solver, strategy, search) triple and seed with the strategy's parameters "
+        "log-uniform / at the ends of their domains, starts incl. the origin; 250 stand-alone lsearch_t sequences with ascent / zero / random "
+        "directions and calls after failed searches; 600 scripted lsearch0 histories (any last step size incl. 0, negative, NaN, inf; "
+        "non-finite values; trial values on both sides of the tangent; 12% exact dyadic boundary cases); non-trivial when >= 2 calls")
 FLAVOUR = {"quick": "plain", "thorough": "plain"}
 HARNESS_TIMEOUT = 1500
 RTOL_DIR = 1e-9      # direction recomputed by the model vs logged direction, relative to |d|_inf (lbfgs, bfgs, gd, cgd)
@@ -231,6 +268,8 @@ def gen(rng, tier):
         radius = 10.0 ** rng.uniform(-3.0, 1.0)
         x0 = start_point(rng, n, radius)
         ops.append(make_op("solver", sid, ls0, lsk, params, fnspec, x0))
+    # the step-initialisation strategies and the glue lsearch_t::get (family ls0)
+    ops += c01_ls0.gen(rng, tier, sys.modules[__name__])
     return ops
 
 
@@ -348,6 +387,11 @@ _seen = {}
 
 def oracle(aug, res):
     """independent evaluation of the property statement on the implementation's answer"""
+    if aug.startswith("ls0 "):
+        if " | " not in aug:
+            return f"ls0: the harness did not answer: {res[:120]}"
+        _seen[aug.split(" | ")[0]] = c01_ls0.calls_of(aug)
+        return c01_ls0.oracle(aug, res, c01_ls0.quad_of(aug, sys.modules[__name__]))
     o = parse_op(aug)
     r = parse_res(res)
     if r is None:
@@ -383,6 +427,11 @@ def oracle(aug, res):
 
 
 def classify(op, kind, detail):
+    if op.startswith("ls0 "):
+        t = op.split()
+        strat = next((w for w in t[2:12] if w in c01_ls0.STRATEGIES), "?")
+        what = detail.split(":")[2].strip().split(" ")[0] if kind == "oracle" and detail.count(":") >= 2 else kind
+        return f"ls0:{t[1]}:{strat}:{what}" if kind == "oracle" else f"{kind}:ls0:{t[1]}:{strat}"
     try:
         o = parse_op(op)
     except Exception:
@@ -412,9 +461,10 @@ def distribution(ops):
     d = {}
     for op in ops:
         t = op.split()
-        k = f"{t[2]}"
+        k = f"{t[2]}" if t[0] != "ls0" else f"ls0:{t[1]}"
         d[k] = d.get(k, 0) + 1
-    its = [v for v in _seen.values()]
+    d.update(c01_ls0.COUNTS)
+    its = [v for k, v in _seen.items() if not k.startswith("ls0 ")]
     if its:
         d["iterations:0"] = sum(1 for v in its if v == 0)
         d["iterations:1"] = sum(1 for v in its if v == 1)
@@ -448,6 +498,11 @@ def logged_gradient_norms(aug):
 
 def compare(aug, impl, model):
     """impl: what the hooks logged; model: what the Lean model recomputed from the logged oracle answers"""
+    if aug.startswith("ls0 "):
+        try:
+            return c01_ls0.compare(aug, impl, model)
+        except Exception:
+            return False
     r = parse_res(impl)
     if r is None:
         return False
@@ -484,6 +539,11 @@ def compare(aug, impl, model):
         # a direction that cancelled down to < 1e-6 |g| is rounding noise, and so is the has_descent / restart decision taken
         # on it (seen with cgd on mse+ridge[1e+06] at eps = 1e-11): not compared
         degenerate = min(max([abs(v) for v in di] + [0.0]), max([abs(v) for v in d] + [0.0])) < 1e-6 * gk
+        # quasi-Newton on a function whose Hessian is singular at the optimum (powell) / has kappa >= 1e6: the unlogged H grows
+        # without bound as |g| -> 0 and the rounding differences of its updates grow with it (seen: bfgs + scaled start on powell at
+        # eps = 2.5e-11, relative error 3e-7, 3e-6, 3e-5 in iterations 46..48 with |g|inf <= 1e-10): directions not compared there
+        if o.fid in ILL_CONDITIONED and o.sid in ("bfgs", "dfp", "sr1", "hoshino", "fletcher") and gk < 1e-9:
+            degenerate = True
         if k < only_first and not degenerate and not vec_close(di, d, tol, gk):
             return False
         if conv != ci or valid != vi:
